@@ -23,6 +23,7 @@ pub struct State {
   stash: VAnonIngress,
   stash_senders: std::collections::BTreeMap<usize, VAnonSender>,
   pool: Option<VSendPool>,
+  trk: VOpTracker,
 }
 
 impl Default for State {
@@ -34,6 +35,7 @@ impl Default for State {
       stash: VAnonIngress::new(64),
       stash_senders: Default::default(),
       pool: None,
+      trk: VOpTracker::new(),
     }
   }
 }
@@ -44,6 +46,29 @@ fn b(v: bool) -> String {
 
 pub fn run_op(st: &mut State, p: &[&str]) -> String {
   match p[0] {
+    // the io_uring worker's table of operations in the kernel
+    "trk" => match p[1] {
+      "new" => {
+        st.trk = VOpTracker::new();
+        "ok".into()
+      }
+      "submit" => st.trk.submit(p[2].parse().unwrap(), p[3]).to_string(),
+      "closefd" => {
+        st.trk.close_fd(p[2].parse().unwrap());
+        "ok".into()
+      }
+      // `complete <key> <0|1>`: 1 = the completion is the notification of a zero-copy send
+      "complete" => st.trk.complete(p[2].parse().unwrap(), p[3] == "1").unwrap_or_else(|| "unknown".into()),
+      "notify" => st.trk.await_notification(p[2].parse().unwrap()).unwrap_or_else(|| "unknown".into()),
+      "state" => st
+        .trk
+        .state()
+        .iter()
+        .map(|(k, d, n)| format!("{}{}={}", if *n { "n" } else { "" }, k, d))
+        .collect::<Vec<_>>()
+        .join(" "),
+      _ => "bad-op".into(),
+    },
     "pool" => {
       let show = |o: Option<u16>| o.map(|i| i.to_string()).unwrap_or_else(|| "none".into());
       match (p[1], st.pool.as_mut()) {
